@@ -9,11 +9,13 @@ CHECKS=${@:-$P}
 if [ -n "$(git -C /repo status --porcelain)" ]; then echo "/repo not clean"; exit 2; fi
 git -C /repo apply "$D/patch.diff" || { echo "patch does not apply"; exit 2; }
 T=$(mktemp -d)
+cp -r evidence $T/evidence.saved   # runs against a seeded change must not replace the committed evidence
 for c in $CHECKS; do
   ./check $c quick > $T/$c.out 2>&1; echo $? > $T/$c.rc
   echo "$c: exit=$(cat $T/$c.rc) $(grep -m1 '^VIOLATION' $T/$c.out)"
 done
 git -C /repo checkout -- . ; git -C /repo clean -fdq tests/ 2>/dev/null
+rm -rf evidence; cp -r $T/evidence.saved evidence
 python3 - "$D" "$T" $CHECKS <<'PY'
 import json,sys,os
 D,T=sys.argv[1],sys.argv[2]; checks=sys.argv[3:]
